@@ -19,9 +19,16 @@ GROUP_TYPES = {
     "SE_2_3": "manif::SE_2_3<{s}>", "SGal3": "manif::SGal3<{s}>",
     "R1": "manif::Rn<{s},1>", "R2": "manif::Rn<{s},2>", "R3": "manif::Rn<{s},3>", "R5": "manif::Rn<{s},5>",
 }
+# bundle keys of the algorithm recorders (C15, C16 and the tangent vector-space events): the same names as Strata.tla GroupsB
+BUNDLE_KEYS = {"B1": ["SE2", "SO3", "R3"], "B2": ["SO2", "SE_2_3", "R1"]}
+def is_bundle_key(key):
+    return key.rsplit("_", 1)[0] in BUNDLE_KEYS
 def key_type(key):
     g, s = key.rsplit("_", 1)
-    return GROUP_TYPES[g].format(s={"d": "double", "f": "float"}[s])
+    sc = {"d": "double", "f": "float"}[s]
+    if g in BUNDLE_KEYS:
+        return "manif::Bundle<%s, %s>" % (sc, ", ".join(GROUP_TYPES[k].split("<")[0] if not k.startswith("R") else "manif::" + k for k in BUNDLE_KEYS[g]))
+    return GROUP_TYPES[g].format(s=sc)
 
 # ------------------------------------------------------------------------------------------------
 def sh(cmd, **kw):
@@ -80,7 +87,9 @@ def build_many(jobs):
     return res
 
 def build_core(keys, src="rec_core.cpp", extra_flags=(), extra_defs=(), prefix="rec_core"):
-    jobs = [dict(tag="%s_%s" % (prefix, k), src=src, defs=["REC_GROUP=" + key_type(k), 'REC_KEY="%s"' % k] + list(extra_defs), flags=extra_flags) for k in keys]
+    bflags = ["-std=c++14", "-include", os.path.join(HARN, "rec_bundle.h")]
+    jobs = [dict(tag="%s_%s" % (prefix, k), src=src, defs=["REC_GROUP=" + key_type(k), 'REC_KEY="%s"' % k] + (["REC_IS_BUNDLE"] if is_bundle_key(k) else []) + list(extra_defs),
+                 flags=list(extra_flags) + (bflags if is_bundle_key(k) else [])) for k in keys]
     res = build_many(jobs)
     bad = {t: l for t, (p, l) in res.items() if p is None}
     if bad:
